@@ -169,6 +169,13 @@ def _arr(E, lv):
     return E.larrs(lv)[0]
 
 
+def _llen(E, lv):
+    """E.llen without the engine's printing of the (possibly huge) length term, see _assume"""
+    n = z3.simplify(z3.Select(E.harr(("len",), [z3.IntSort()], z3.IntSort()), lv.t))
+    _assume(E, n >= 0)
+    return n
+
+
 def _ext_bytearray(E, args, kwargs):
     """bytearray() -> new empty; bytearray(list of ints) -> NEW list with the same content (ValueError unless every
     element is in range(256): obligation); bytes -> same content"""
@@ -176,7 +183,7 @@ def _ext_bytearray(E, args, kwargs):
         return E.new_list(INT, 0)
     a = args[0]
     if isinstance(a, ListV):
-        n = E.llen(a)
+        n = _llen(E, a)
         if a.et is None:
             return E.new_list(INT, 0)
         k = z3.Int("k!ba%d" % next(E.counter))
@@ -198,7 +205,7 @@ REG.assume_note("C40: a bytearray is modelled as a mutable list of ints; bytearr
 
 @specfunc
 def is_bytes(E, b):
-    n = E.llen(b)
+    n = _llen(E, b)
     if b.et is None:
         return True
     k = z3.Int("k!ib%d" % next(E.counter))
@@ -224,7 +231,7 @@ bytify_n0.native = lambda n, size, strict: (n & (2 ** (8 * size) - 1)) if (n < 0
 
 @specfunc
 def bytes_cert(E, result, n0, reverse):
-    return _bytes_cert(E, result, 0, E.llen(result), n0, reverse)
+    return _bytes_cert(E, result, 0, _llen(E, result), n0, reverse)
 
 
 @specfunc
@@ -380,7 +387,7 @@ def _U_unfold(E, arr, rv, L, j):
 @specfunc
 def Ufold(E, b, reverse, j):
     """big-endian base-256 value of the first j bytes of b (b reversed first when `reverse`)"""
-    return Sym(_U_unfold(E, _arr(E, b), E.tobool(E.truth(reverse)), E.llen(b), zint(j)), "int")
+    return Sym(_U_unfold(E, _arr(E, b), E.tobool(E.truth(reverse)), _llen(E, b), zint(j)), "int")
 
 
 def _ufold_native(b, reverse, j):
@@ -398,7 +405,7 @@ Ufold.native = _ufold_native
 def horner_cert(E, result, b, reverse):
     """exists h: h[0] == 0, h[k+1] == 256*h[k] + view(k) for k < len(b), result == h[len(b)]   (pointwise form of
     the fold; composes with pointwise-equal sequences without a congruence lemma)"""
-    L = E.llen(b)
+    L = _llen(E, b)
     arr = _arr(E, b)
     rv = E.tobool(E.truth(reverse))
     k = z3.Int("k!hc%d" % next(E.counter))
@@ -421,11 +428,11 @@ horner_cert.native = lambda result, b, reverse: result == int.from_bytes(bytes(b
 def hz_inv(E, b_in, reverse, b, n):
     """loop invariant of unbytify: j = len(b_in) - len(b) bytes consumed; b is the not yet consumed part, stored
     least-significant LAST... i.e. b[k] == view(L-1-k); h[0..j] are the prefix values; n == h[j] == U(j)"""
-    L = E.llen(b_in)
+    L = _llen(E, b_in)
     src = _arr(E, b_in)
     rv = E.tobool(E.truth(reverse))
     cur = _arr(E, b)
-    m = E.llen(b)
+    m = _llen(E, b)
     j = L - m
     h = E.ghost["hz"]
     zn = zint(n)
@@ -448,7 +455,7 @@ def _g_unb_init(E):
 
 
 def _g_unb_step(E):
-    j = E.llen(E.ghost["b_in"]) - E.llen(E.frame.env["b"])
+    j = _llen(E, E.ghost["b_in"]) - _llen(E, E.frame.env["b"])
     E.ghost["hz"] = z3.Store(E.ghost["hz"], j, zint(E.frame.env["n"]))
 
 
@@ -524,9 +531,11 @@ def _byte_lemmas():
            z3.And(z3.Select(h, j + 1) >= 0, z3.Select(h, j + 1) < pow2(8 * (j + 1))))
     # F4  certificates are unique: two certificates of the same integer, of lengths L <= L2, agree digit by digit
     #     on the first L digits and in their quotients (induction on k) ...
-    cert2 = _cert(q2, b2, rv, L2, n0, k)
+    #     (the two may differ in byte order: flags rv / rv2)
+    rv2 = z3.Bool("rv2")
+    cert2 = _cert(q2, b2, rv2, L2, n0, k)
     d1 = lambda t: z3.Select(b, z3.If(rv, t, L - 1 - t))
-    d2 = lambda t: z3.Select(b2, z3.If(rv, t, L2 - 1 - t))
+    d2 = lambda t: z3.Select(b2, z3.If(rv2, t, L2 - 1 - t))
     _lemma("F4 uniqueness/base", [cert, cert2, L <= L2], z3.Select(q, 0) == z3.Select(q2, 0))
     _lemma("F4 uniqueness/step", [cert, cert2, L <= L2, j >= 0, j < L, z3.Select(q, j) == z3.Select(q2, j)],
            z3.And(d1(j) == d2(j), z3.Select(q, j + 1) == z3.Select(q2, j + 1)))
@@ -538,14 +547,24 @@ def _byte_lemmas():
     #     n0 = band(n, 2^(8L) - 1) = n [F3 + the mask identity], size L: a certificate (q2, b2) of length L2 >= L
     #     without a leading zero beyond L.  Conclusions of the inductions F4 (with q[t] = h[L-t], F2) and F5 are
     #     the quantified premises.  Goal: same length and same bytes.
-    lead2 = z3.Select(b2, z3.If(rv, L2 - 1, z3.IntVal(0)))
+    lead2 = z3.Select(b2, z3.If(rv2, L2 - 1, z3.IntVal(0)))
     u4 = z3.ForAll([j], z3.Implies(z3.And(j >= 0, j < L), z3.And(d1(j) == d2(j),
                                                                z3.Select(h, L - (j + 1)) == z3.Select(q2, j + 1))))
     u5 = z3.ForAll([j], z3.Implies(z3.And(j >= L, j < L2), d2(j) == 0))
     _lemma("F6 bytify(unbytify(b)) == b/use",
-           [hor, isb, cert2, n0 == z3.Select(h, L), L2 >= L, z3.Implies(L2 > L, lead2 != 0), u4, u5,
+           [hor, isb, cert2, rv2 == rv, n0 == z3.Select(h, L), L2 >= L, z3.Implies(L2 > L, lead2 != 0), u4, u5,
             i >= 0, i < L],
            z3.And(L2 == L, z3.Select(b2, i) == z3.Select(b, i)))
+    # F4 use: the byte-order variants are mirror images - certificates of the same integer and length, one
+    #     reversed and one not, hold the same bytes in opposite order
+    u4m = z3.ForAll([j], z3.Implies(z3.And(j >= 0, j < L), d1(j) == d2(j)))
+    _lemma("F4 reverse = mirror image/use", [cert, cert2, L == L2, rv, z3.Not(rv2), u4m, i >= 0, i < L],
+           z3.Select(b, i) == z3.Select(b2, L - 1 - i))
+    # F7  unbytify's prefix values are the fold: h[j] == U(b, j) (induction on j); with F1: the integer unpackify
+    #     takes apart (its Horner certificate) is the integer packify packed (bytify's certificate of the same bytes)
+    _lemma("F7 horner=>value/base", [hor, Udef(z3.IntVal(0))], z3.Select(h, 0) == _U(b, rv, L, 0))
+    _lemma("F7 horner=>value/step", [hor, j >= 0, j < L, z3.Select(h, j) == _U(b, rv, L, j), Udef(j + 1)],
+           z3.Select(h, j + 1) == _U(b, rv, L, j + 1))
 
 
 _byte_lemmas()
@@ -881,33 +900,39 @@ _S_lemmas()
 
 
 # =============================================================================== packifyInto
+def _into_terms(E, b, b0, offset, esz):
+    return _llen(E, b), _llen(E, b0), _arr(E, b), _arr(E, b0), zint(offset), zint(esz)
+
+
+# b0 = the buffer at entry (ghost snapshot).  Three clauses: length, other bytes undisturbed, zero extension.
 @specfunc
-def into_frame(E, b, b0, offset, esz):
-    """b0 = the buffer at entry.  Length: max(old length, offset+size); bytes outside [offset, offset+size) keep
-    their old value; positions the buffer did not have before (old length <= k < offset) are zero"""
-    n, n0 = E.llen(b), E.llen(b0)
-    a, a0 = _arr(E, b), _arr(E, b0)
-    off, sz = zint(offset), zint(esz)
-    k = z3.Int("k!if%d" % next(E.counter))
-    keep = z3.ForAll([k], z3.Implies(z3.And(k >= 0, k < n0, z3.Or(k < off, k >= off + sz)),
-                                     z3.Select(a, k) == z3.Select(a0, k)))
-    zero = z3.ForAll([k], z3.Implies(z3.And(k >= n0, k < off), z3.Select(a, k) == 0))
-    return Sym(z3.And(n == z3.If(n0 >= off + sz, n0, off + sz), keep, zero), "bool")
+def into_len(E, b, b0, offset, esz):
+    """the buffer keeps its length, or grows to offset+size when it was shorter"""
+    n, n0, a, a0, off, sz = _into_terms(E, b, b0, offset, esz)
+    return Sym(n == z3.If(n0 >= off + sz, n0, off + sz), "bool")
 
 
-def _into_frame_native(b, b0, offset, esz):
-    b, b0 = list(b), list(b0)
-    if len(b) != max(len(b0), offset + esz):
-        return False
-    for k in range(len(b)):
-        if offset <= k < offset + esz:
-            continue
-        if b[k] != (b0[k] if k < len(b0) else 0):
-            return False
-    return True
+@specfunc
+def into_keep(E, b, b0, offset, esz):
+    """bytes outside [offset, offset+size) keep their old value"""
+    n, n0, a, a0, off, sz = _into_terms(E, b, b0, offset, esz)
+    k = z3.Int("k!ik%d" % next(E.counter))
+    return Sym(z3.ForAll([k], z3.Implies(z3.And(k >= 0, k < n0, z3.Or(k < off, k >= off + sz)),
+                                         z3.Select(a, k) == z3.Select(a0, k))), "bool")
 
 
-into_frame.native = _into_frame_native
+@specfunc
+def into_zero(E, b, b0, offset, esz):
+    """positions the buffer did not have before and that lie below the slice (old length <= k < offset) are zero"""
+    n, n0, a, a0, off, sz = _into_terms(E, b, b0, offset, esz)
+    k = z3.Int("k!iz%d" % next(E.counter))
+    return Sym(z3.ForAll([k], z3.Implies(z3.And(k >= n0, k < off), z3.Select(a, k) == 0)), "bool")
+
+
+into_len.native = lambda b, b0, offset, esz: len(b) == max(len(b0), offset + esz)
+into_keep.native = lambda b, b0, offset, esz: all(b[k] == b0[k] for k in range(min(len(b0), len(b)))
+                                                  if k < offset or k >= offset + esz) and len(b) >= len(b0)
+into_zero.native = lambda b, b0, offset, esz: all(b[k] == 0 for k in range(len(b0), min(offset, len(b))))
 
 
 def _mk_packify_into(rng, i, cex, nr):
@@ -925,7 +950,7 @@ def _call_without_ghosts(env, nr):
 def _setup_b0(E):
     """ghost `b0`: a snapshot (separate list object) of the buffer's content at entry"""
     b = E.frame.env["b"]
-    E.ghost["b0"] = E.new_list(INT, E.llen(b), [_arr(E, b)])
+    E.ghost["b0"] = E.new_list(INT, _llen(E, b), [_arr(E, b)])
 
 
 contract(F, "packifyInto", P, params=dict(PACK_PARAMS, b=BYTEARR, offset=INT), returns=INT,
@@ -933,7 +958,8 @@ contract(F, "packifyInto", P, params=dict(PACK_PARAMS, b=BYTEARR, offset=INT), r
          modifies=["b[*]"], externals=EXT, loops={0: PACK_LOOP},
          ensures=[FITS, "result == esize(size, fmt)",
                   # other bytes undisturbed, buffer extended with zeros when shorter
-                  "into_frame(b, b0, offset, esize(size, fmt))",
+                  "into_len(b, b0, offset, esize(size, fmt))", "into_keep(b, b0, offset, esize(size, fmt))",
+                  "into_zero(b, b0, offset, esize(size, fmt))",
                   # the slice holds exactly the bytes packify returns
                   "bytes_cert_at(b, offset, esize(size, fmt), %s, reverse)" % PKN],
          raises={"ValueError": ["not (%s)" % FITS, "seq_eq(b, b0)"]},
@@ -986,7 +1012,7 @@ def unp_n(E, b, reverse, nbytes):
 def horner_view(E, n, b, reverse, nbytes):
     """exists h: h[0] == 0, h[k+1] == 256*h[k] + s[k] (k < m), n == h[m]   with m = min(nbytes, len(b)) and
     s = b, or b reversed.  Witness: the sequence of the unbytify call on this path."""
-    L = E.llen(b)
+    L = _llen(E, b)
     arr = _arr(E, b)
     rv = E.tobool(E.truth(reverse))
     nb = zint(nbytes)
@@ -1036,7 +1062,7 @@ def _ext_tuple(E, args, kwargs):
     symbolic-length tuples)"""
     if len(args) == 1 and isinstance(args[0], ListV):
         a = args[0]
-        return E.new_list(a.et, E.llen(a), E.larrs(a) if a.et is not None else None)
+        return E.new_list(a.et, _llen(E, a), E.larrs(a) if a.et is not None else None)
     raise Unsupported("tuple(%r) outside the C40 model" % (args,))
 
 
@@ -1185,7 +1211,7 @@ def binval(E, u, k):
 def is_binstr(E, u):
     if u.et is None:
         return True
-    n, arr = E.llen(u), _arr(E, u)
+    n, arr = _llen(E, u), _arr(E, u)
     k = z3.Int("k!bs%d" % next(E.counter))
     return Sym(z3.ForAll([k], z3.Implies(z3.And(k >= 0, k < n), z3.Or(z3.Select(arr, k) == 48, z3.Select(arr, k) == 49))),
                "bool")
@@ -1194,7 +1220,7 @@ def is_binstr(E, u):
 @specfunc
 def bin_digits(E, result, n, size):
     """character k of binize(n, size) is the binary digit of weight 2^(size-1-k) of n:  (n >> (size-1-k)) mod 2"""
-    L, arr = E.llen(result), _arr(E, result)
+    L, arr = _llen(E, result), _arr(E, result)
     zn, zs = zint(n), zint(size)
     k = z3.Int("k!bd%d" % next(E.counter))
     return Sym(z3.And(L == z3.If(zs > 0, zs, 0),
@@ -1259,3 +1285,276 @@ def _bin_lemmas():
 
 
 _bin_lemmas()
+
+
+# =============================================================================== hex text of bytes
+_HEXCH = "0123456789abcdef"
+
+
+def _hex_table_check():
+    """per-byte facts, FINITE and COMPLETE: the real library evaluated on all 256 bytes at check time -
+    '{0:02x}'.format(v) is the two lowercase hex digits (v div 16, v mod 16) and int(.., 16) inverts it"""
+    for v in range(256):
+        t = "{0:02x}".format(v)
+        if t != _HEXCH[v // 16] + _HEXCH[v % 16] or len(t) != 2 or int(t, 16) != v or int(t.upper(), 16) != v:
+            raise AssertionError("hex table: byte %d formats as %r" % (v, t))
+    return 256
+
+
+_N_HEX = _hex_table_check()
+
+
+def _hexd(d):
+    t = z3.StringVal(_HEXCH[15])
+    for v in range(14, -1, -1):
+        t = z3.If(d == v, z3.StringVal(_HEXCH[v]), t)
+    return t
+
+
+def _hex2(v):
+    return z3.Concat(_hexd(v / 16), _hexd(v % 16))
+
+
+_HXA = z3.Function("HEXA", AII, I, z3.StringSort())            # hex text of the first k elements of a byte list
+_HXS = z3.Function("HEXS", SeqInt, I, z3.StringSort())         # ... of a bytes string
+
+
+def _hex_unfold(E, fn, src, at, k):
+    """HEX(0) = '' ; HEX(k+1) = HEX(k) ++ hex2(byte k)"""
+    k = z3.simplify(k)
+    _assume(E, z3.Implies(k <= 0, fn(src, k) == z3.StringVal("")))
+    _assume(E, z3.Implies(k > 0, fn(src, k) == z3.Concat(fn(src, k - 1), _hex2(at(k - 1)))))
+    return fn(src, k)
+
+
+@specfunc
+def hexfold(E, b, k):
+    """concatenation of the two-digit lowercase hex of the first k bytes of b (bytearray model or bytes)"""
+    if isinstance(b, ListV):
+        arr = _arr(E, b)
+        return Sym(_hex_unfold(E, _HXA, arr, lambda t: z3.Select(arr, t), zint(k)), "str")
+    s = zbytes(b)
+    return Sym(_hex_unfold(E, _HXS, s, lambda t: s[t], zint(k)), "str")
+
+
+hexfold.native = lambda b, k: "".join(_HEXCH[x // 16] + _HEXCH[x % 16] for x in bytes(b)[:k])
+
+
+def _ext_format(E, args, kwargs):
+    """'{0:02x}'.format(v) for a byte v: its two hex digits (table checked on all 256 bytes at import);
+    every other literal keeps the engine's default (message text, ignored)"""
+    if args[0] == "{0:02x}" and len(args) == 2:
+        v = args[1]
+        if isinstance(v, int) and not isinstance(v, bool):
+            return args[0].format(v)
+        if isinstance(v, Sym) and v.k == "int":
+            E.oblige("safe", z3.And(v.t >= 0, v.t <= 255), "'{0:02x}'.format(v): v is a byte (model)")
+            return Sym(_hex2(v.t), "str")
+        raise Unsupported("'{0:02x}'.format(%r)" % (v,))
+    return None
+
+
+def _ext_ord(E, args, kwargs):
+    v = args[0]
+    if isinstance(v, (str, bytes)) and len(v) == 1:
+        return ord(v)
+    if isinstance(v, Sym) and v.k == "bytes":
+        n = z3.Length(v.t)
+        if "TypeError" in E.raises_decl:
+            if not E.branch(n == 1):
+                raise PyRaise(ExcV(TypeError, ("ord() expected a character",)))
+        else:
+            E.oblige("safe", n == 1, "ord(x): x has length 1")
+        r = Sym(v.t[0], "int")
+        _assume(E, z3.And(r.t >= 0, r.t <= 255))         # element of a bytes string
+        return r
+    raise Unsupported("ord(%r) outside the C40 model" % (v,))
+
+
+EXT_HEX = dict(EXT)
+EXT_HEX["literal.format"] = _ext_format
+EXT_HEX[ord] = _ext_ord
+REG.assume_note("C40 hex codecs: '{0:02x}'.format(v) of a byte is modelled as the two lowercase hex digits of v div 16 "
+                "and v mod 16, ord(x) of a one-byte bytes string as that byte (0..255); the per-byte facts (format, "
+                "length 2, int(text, 16) == v, also for the upper-case text) are FINITE and were discharged by "
+                "evaluating the real library on all %d bytes at check time (complete)" % _N_HEX)
+
+
+def _g_hexify_in(E):
+    E.ghost["b_in"] = E.frame.env["b"]
+
+
+def _mk_hexify(rng, i, cex, nr):
+    pool = [b"", b"\x00", b"\xff", b"\x0a\xb0", b"0123", bytes(range(16))]
+    raw = pool[i] if i < len(pool) else bytes(rng.randrange(256) for _ in range(rng.randint(0, 40)))
+    return dict(b=bytearray(raw) if i % 2 else raw)
+
+
+contract(F, "hexify", P, params=dict(b=BYTEARR), returns=STR, requires=["is_bytes(b)"], modifies=[],
+         externals=EXT_HEX, ghost={"before": {"b = bytearray(b)": _g_hexify_in}},
+         loops={0: dict(inv=["h == hexfold(b_in, _i)", "len(h) == 2 * _i"])},
+         ensures=["result == hexfold(b, len(b))", "len(result) == 2 * len(b)"],
+         replay=dict(make=_mk_hexify, count=300))
+
+contract(F, "hexize", P, params=dict(b=BYTES), returns=STR, modifies=[], externals=EXT_HEX,
+         loops={0: dict(inv=["h == hexfold(b, _i)", "len(h) == 2 * _i"])},
+         ensures=["result == hexfold(b, len(b))", "len(result) == 2 * len(b)"],
+         replay=dict(make=lambda rng, i, cex, nr: dict(b=bytes(_mk_hexify(rng, i, cex, nr)["b"])), count=300))
+
+
+# =============================================================================== BOUNDED stand-ins (NOT proofs)
+# unhexify / unhexize filter their input with str.replace inside a loop over the characters and slice the text:
+# outside the executor's string support.  They are checked by enumeration on the REAL functions in the native
+# harness only (verify=False: no obligation is generated or counted for them).  Scope, per function:
+#   * the hex text of EVERY byte string of length <= 2 (65 793 inputs: round trip unhex(hex(b)) == b),
+#   * EVERY text of length <= 4 over the 10-character alphabet  0 1 9 a f A F g : <space>  (11 111 inputs; non-hex
+#     characters, odd lengths, upper case),
+#   * seeded random texts of up to 64 characters over hex digits, upper case and separators.
+_UNHEX_ALPHA = "019afAFg: "
+_N_B2 = 1 + 256 + 65536
+_N_A4 = sum(len(_UNHEX_ALPHA) ** k for k in range(5))
+UNHEX_COUNT = _N_B2 + _N_A4 + 3000
+
+
+def _unhex_ref(h):
+    """independent reference: drop every character that is not a hex digit, left-pad to even length with '0',
+    read pairs of digits base 16"""
+    digs = [c for c in h if c in "0123456789abcdefABCDEF"]
+    if len(digs) % 2:
+        digs.insert(0, "0")
+    vals = ["0123456789abcdef".index(c.lower()) for c in digs]
+    return bytes(16 * vals[i] + vals[i + 1] for i in range(0, len(vals), 2))
+
+
+def _hex_norm(h):
+    digs = "".join(c.lower() for c in h if c in "0123456789abcdefABCDEF")
+    return ("0" + digs) if len(digs) % 2 else digs
+
+
+@specfunc
+def unhex_ref(E, h):
+    raise Unsupported("bounded stand-in: unhex_ref has no symbolic counterpart")
+
+
+@specfunc
+def hex_norm(E, h):
+    raise Unsupported("bounded stand-in: hex_norm has no symbolic counterpart")
+
+
+unhex_ref.native = _unhex_ref
+hex_norm.native = _hex_norm
+
+
+def _mk_unhex(rng, i, cex, nr):
+    if i < _N_B2:
+        raw = b"" if i == 0 else (bytes([i - 1]) if i <= 256 else bytes(divmod(i - 257, 256)))
+        return dict(h="".join("%02x" % x for x in raw))
+    i -= _N_B2
+    if i < _N_A4:
+        n, base = 0, len(_UNHEX_ALPHA)
+        while i >= base ** n:
+            i -= base ** n
+            n += 1
+        s = ""
+        for _ in range(n):
+            s += _UNHEX_ALPHA[i % base]
+            i //= base
+        return dict(h=s)
+    return dict(h="".join(rng.choice("0123456789abcdefABCDEF0123456789abcdef :-xg\n") for _ in range(rng.randint(0, 64))))
+
+
+_BOUNDED_NOTE = ("BOUNDED stand-in (native enumeration on the real function, not a proof): hex text of all byte strings "
+                 "of length <= 2, all texts of length <= 4 over '%s', 3000 seeded random texts of length <= 64"
+                 % _UNHEX_ALPHA)
+
+contract(F, "unhexify", P, params=dict(h=STR), returns=BYTEARR, verify=False, note=_BOUNDED_NOTE,
+         ensures=["isinstance(result, bytearray) and bytes(result) == unhex_ref(h)",
+                  # hexify . unhexify = normalisation (lower case, non-hex characters dropped, even length)
+                  "mod.hexify(result) == hex_norm(h)",
+                  # unhexify . hexify = identity
+                  "mod.unhexify(mod.hexify(result)) == result"],
+         replay=dict(make=_mk_unhex, count=UNHEX_COUNT))
+
+contract(F, "unhexize", P, params=dict(h=STR), returns=BYTES, verify=False, note=_BOUNDED_NOTE,
+         ensures=["isinstance(result, bytes) and result == unhex_ref(h)",
+                  "mod.hexize(result) == hex_norm(h)",
+                  "mod.unhexize(mod.hexize(result)) == result"],
+         replay=dict(make=_mk_unhex, count=UNHEX_COUNT))
+
+
+# =============================================================================== lemma E': round trip, UNBOUNDED
+def _Eint_lemmas():
+    """The pack / unpack round trip over the MATHEMATICAL integers (no width bound), relative to the arithmetic
+    reading of the operators (identities I1-I5 below, cross-checked against CPython at import, not proved):
+        I1 shl(a,k) = a*2^k        I2 shr(a,k) = a div 2^k        I3 band(a, 2^k - 1) = a mod 2^k
+        I4 bor(a,b) = a + b  when a mod 2^k = 0 <= b < 2^k         I5 band(a, shl(m,p)) = shl(band(shr(a,p), m), p)
+    so that   PK(k+1) = PK(k) + m_k * 2^(pn)   (I4, I1; side conditions are goals below)   and
+              field(P, p, w) = shr(band(P, shl(2^w - 1, p)), p) = (P div 2^p) mod 2^w      (I5, I3, I1, I2).
+    Invariant, with the witness A = PK(k) / 2^(T - S(k)):   P == A * 2^(T-sk)  and  0 <= A < 2^sk.
+    pow2 facts used: positivity and additivity pow2(a+b) = pow2(a)*pow2(b) (lemma P2, induction on b)."""
+    a, bb = z3.Ints("a bb")
+    p2 = pow2
+    _lemma("P2 pow2 additivity/base", [a >= 0, p2(z3.IntVal(0)) == 1], p2(a + 0) == p2(a) * p2(z3.IntVal(0)))
+    _lemma("P2 pow2 additivity/step", [a >= 0, bb >= 0, p2(a + bb) == p2(a) * p2(bb),
+                                       p2(a + bb + 1) == 2 * p2(a + bb), p2(bb + 1) == 2 * p2(bb)],
+           p2(a + (bb + 1)) == p2(a) * p2(bb + 1))
+    _lemma("P2 pow2 positive/step", [a >= 0, p2(a) >= 1, p2(a + 1) == 2 * p2(a)], p2(a + 1) >= 1)
+    T, sk, w, m, A, Pk, e, wj = z3.Ints("T sk w m A P e wj")
+    pn = T - sk - w
+    D = p2(T - sk)
+    field = lambda word, pos, width: (word / p2(pos)) % p2(width)
+    pre = [T >= 0, sk >= 0, w >= 0, sk + w <= T, m >= 0, m < p2(w),
+           Pk == A * D, A >= 0, A < p2(sk),                                   # invariant I(k)
+           D == p2(w) * p2(pn), p2(sk + w) == p2(sk) * p2(w),                 # instances of P2
+           p2(w) >= 1, p2(pn) >= 1, p2(sk) >= 1, D >= 1]
+    P1 = Pk + m * p2(pn)
+    A1 = A * p2(w) + m
+    _lemma("E' round trip unbounded/base", [p2(z3.IntVal(0)) == 1], z3.And(0 == 0 * p2(T - 0), 0 < p2(z3.IntVal(0))))
+    _lemma("E' round trip unbounded/step: side conditions of I4 (or = plus)", pre,
+           z3.And(Pk % D == 0, m * p2(pn) >= 0, m * p2(pn) < D))
+    _lemma("E' round trip unbounded/step: invariant kept", pre,
+           z3.And(P1 == A1 * p2(pn), A1 >= 0, A1 < p2(sk + w)))
+    _lemma("E' round trip unbounded/step: new field reads back", pre + [P1 == A1 * p2(pn)], field(P1, pn, w) == m)
+    # an earlier field j < k lies at p = (T - sk) + e, e >= 0 (lemma S): pow2(p) = pow2(e) * D
+    p = (T - sk) + e
+    _lemma("E' round trip unbounded/step: earlier fields undisturbed",
+           pre + [e >= 0, wj >= 0, p2(p) == p2(e) * D, p2(e) >= 1, m * p2(pn) >= 0, m * p2(pn) < D],
+           (P1 / p2(p)) == (Pk / p2(p)))
+    _lemma("E' round trip unbounded/use: mask and padding",
+           [T >= 0, sk >= 0, sk <= T, Pk == A * D, A >= 0, A < p2(sk), p2(T) == p2(sk) * D, D >= 1, p2(sk) >= 1],
+           z3.And(Pk >= 0, Pk < p2(T), Pk % p2(T) == Pk, Pk % D == 0))
+
+
+_Eint_lemmas()
+
+
+def _selftest_bridge():
+    """identities I4 and I5 of lemma E' against CPython (I1-I3 are part of _selftest_identities)"""
+    rng = _random.Random(41)
+    n = 0
+    for _ in range(4000):
+        k = rng.randint(0, 70)
+        hi = rng.getrandbits(rng.choice([1, 8, 70, 130])) * rng.choice([1, 1, -1])
+        a = hi * 2 ** k
+        b = rng.getrandbits(k) if k else 0
+        p = rng.randint(0, 70)
+        mm = rng.getrandbits(rng.choice([1, 3, 8, 64]))
+        x = rng.getrandbits(rng.choice([8, 64, 200])) * rng.choice([1, 1, -1])
+        n += 1
+        if (a | b) != a + b or (x & (mm << p)) != (((x >> p) & mm) << p):
+            raise AssertionError("bridge identity fails on CPython: a=%d b=%d x=%d m=%d p=%d" % (a, b, x, mm, p))
+    for a in range(-64, 65):
+        for k in range(0, 7):
+            for b in range(0, 2 ** k):
+                n += 1
+                if ((a * 2 ** k) | b) != a * 2 ** k + b:
+                    raise AssertionError("bridge identity I4 fails: a=%d k=%d b=%d" % (a, k, b))
+    return n
+
+
+_N_BRIDGE = _selftest_bridge()
+REG.assume_note("C40 lemma E' (unbounded round trip over the integers) is relative to the arithmetic reading of the "
+                "operators: shl(a,k) = a*2^k, shr(a,k) = a div 2^k, band(a, 2^k-1) = a mod 2^k, bor(a,b) = a+b when "
+                "a mod 2^k = 0 <= b < 2^k, band(a, shl(m,p)) = shl(band(shr(a,p), m), p) - identities of Python's ints "
+                "cross-checked at import (%d evaluations for the last two), not proved; lemma E proves the same facts "
+                "with the real operators for 8*size <= 63" % _N_BRIDGE)
